@@ -1,7 +1,6 @@
 (* C14 -- constructed bases are complete, orthonormal, Hermitian; expansion is exact.
    Statements about the real instance of Model/BasisModel.v; only [exact <lemma>] proofs here.
-   Partial (see docs/notes/C14.md): completeness of the GGM basis is stated ([C14_ggm_complete_full])
-   but not proved for general d; it is a premise wherever it is needed.                          *)
+   Oracles (null_space, matrix_rank) are explicit premises; see docs/notes/C14.md.               *)
 From Coq Require Import ZArith Reals List.
 From FF Require Import Base.Ops Inst.RInst Base.RAlg Model.BasisModel Model.Tie.C14 Proofs.BasisProofs.
 (* libraries the generated correspondence cases import (kept in the dependency cone of this file) *)
@@ -46,8 +45,10 @@ Proof. exact ggm_hermitian. Qed.
 Theorem C14_ggm_first : forall d a b, (a < d)%nat -> (b < d)%nat ->
   ggm_C d 0 a b = if Nat.eqb a b then (1 / sqrt (INR d), 0) else 0c.
 Proof. exact ggm_C_id. Qed.
-(* full statement, not proved for general d *)
-Definition C14_ggm_complete_full : Prop := forall d, (0 < d)%nat -> basis_complete d (d * d) (ggm_C d).
+(* completeness relation, every d (index bijection for the off-diagonal part, telescoping sum of 1/(l(l+1)) for the diagonal part) *)
+Theorem C14_ggm_complete : forall d, (0 < d)%nat -> basis_complete d (d * d) (ggm_C d).
+Proof. exact ggm_complete. Qed.
+Print Assumptions C14_ggm_complete.
 
 (* ---------------- expansion ---------------- *)
 Theorem C14_expand_reconstruct : forall d n Cb M, basis_herm d n Cb -> basis_complete d n Cb ->
@@ -60,6 +61,9 @@ Proof. exact expand_real. Qed.
 Example C14_expand_reconstruct_pauli : forall n M,
   feq (2 ^ n) (freconstruct (4 ^ n) (fexpand (2 ^ n) M (pauli_C n)) (pauli_C n)) M.
 Proof. exact (fun n M => expand_reconstruct_f (2 ^ n) (4 ^ n) (pauli_C n) M (pauli_hermitian n) (pauli_complete n)). Qed.
+Example C14_expand_reconstruct_ggm : forall d M, (0 < d)%nat ->
+  feq d (freconstruct (d * d) (fexpand d M (ggm_C d)) (ggm_C d)) M.
+Proof. exact (fun d M Hd => expand_reconstruct_f d (d * d) (ggm_C d) M (ggm_hermitian d Hd) (ggm_complete d Hd)). Qed.
 (* closed-form Gell-Mann expansion = generic expansion, every d and every coefficient *)
 Theorem C14_ggm_expand_eq_expand : forall d (M : Mat) idx, (0 < d)%nat -> (idx < d * d)%nat ->
   ggm_expand_coeff RO d false M idx = mtrprod RO d M (ggm_elem RO d idx).
@@ -104,6 +108,10 @@ Proof. exact mix_complete. Qed.
 Theorem C14_mix_contains : forall d n G W i E, basis_herm d n G -> basis_complete d n G ->
   (forall j, (j < n)%nat -> W i j = fexpand d E G j) -> feq d (mixB n G W i) E.
 Proof. exact mix_contains. Qed.
+Theorem C14_mix_contains_traceless : forall d n G W i E, basis_herm d (S n) G -> basis_complete d (S n) G ->
+  fexpand d E G 0 = 0c -> (forall j, (j < n)%nat -> W i j = fexpand d E G (S j)) ->
+  feq d (mixB n (fun j => G (S j)) W i) E.
+Proof. exact mix_contains_traceless. Qed.
 Theorem C14_from_partial_onb_full : forall d, (0 < d)%nat -> forall A N, A <> [] ->
   rows_orthonormal (d * d) (Wf (A ++ N)) (length (A ++ N)) ->
   hs_orthonormal d (length (A ++ N)) (fun i => toF (nth i (fp_basis_raw RO d false A N) [])).
